@@ -1127,6 +1127,23 @@ class FnTranslator:
 
     def binary(self, e, env, pre, want):
         _, op, l, r = e
+        # (added for C18, byte_utils.rs) `8 * 7`: arithmetic on two unsuffixed literals is a literal
+        # (folded only while the value stays in 0 .. 2^31-1, where every integer type Rust can infer agrees)
+        ul, ur = l, r
+        while ul[0] == "paren": ul = ul[1]
+        while ur[0] == "paren": ur = ur[1]
+        if op in ("+", "-", "*") and ul[0] == "int" and ur[0] == "int" and not ul[2] and not ur[2]:
+            v = {"+": ul[1] + ur[1], "-": ul[1] - ur[1], "*": ul[1] * ur[1]}[op]
+            if 0 <= v < 2 ** 31:
+                return self.expr(("int", v, None), env, pre, want)
+        # (added for C18) bitwise `| & ^` on unsigned operands of one type: total, the result stays in the type
+        if op in ("|", "&", "^"):
+            a, at, b, bt = self.operands(l, r, env, pre, want)
+            if at == INTLIT and bt == INTLIT:
+                raise RsError("bitwise operator on two untyped literals")
+            if at != bt or not is_uint(at):
+                raise RsError("bitwise operator %s on operands of type %r / %r is outside the subset" % (op, at, bt))
+            return "(%s %s %s)" % ({"|": "Nat.lor", "&": "Nat.land", "^": "Nat.xor"}[op], a, b), at
         if op in ("&&", "||"):
             a, at = self.expr(l, env, pre, BOOL)
             pre2 = []
